@@ -7,6 +7,7 @@ import (
 	"os"
 	"runtime/debug"
 	"runtime/pprof"
+	"time"
 
 	"verifharness/hx"
 )
@@ -46,7 +47,10 @@ func realMain() {
 	if c.ReplayIn != "" {
 		var cs Case
 		c.LoadReplay(&cs)
-		if cs.Mode == "crash" {
+		if cs.Seq.Lazy || cs.Mode == "lazy" {
+			cs.Seq.Lazy = true
+			runLazy(c, &cs.Seq)
+		} else if cs.Mode == "crash" {
 			runCrash(c, &cs.Seq, cs.Index)
 		} else {
 			res := runCrash(c, &cs.Seq, 1<<30) // only to learn the commit counts
@@ -55,28 +59,41 @@ func realMain() {
 		c.Finish("replay")
 	}
 	rng := hx.NewRNG(c.Seed)
-	nShort, nPebble, nBoundary, lenShort, lenB := 5, 1, 3, 10, 8
+	nShort, nPebble, nBoundary, lenShort, lenB := 5, 1, 2, 10, 8 // quick: 2 random window-end sequences per backend (was 3) since the lazy-first-use family added 2 directed ones
 	if c.Thorough() {
 		nShort, nPebble, nBoundary, lenShort, lenB = 60, 20, 25, 14, 10
 	}
+	wall := map[string]float64{}
+	timed := func(family string, f func()) {
+		t0 := time.Now()
+		f()
+		wall[family] += time.Since(t0).Seconds()
+	}
 	for _, ns := range []bool{false, true} {
 		for _, s := range directed(ns) {
-			runSeq(c, s)
+			timed("directed", func() { runSeq(c, s) })
+		}
+		for _, s := range lazySeqs(ns) {
+			timed("lazy-first-use", func() { runLazy(c, s) })
 		}
 		for _, s := range largeSeqs(ns, c.Thorough()) {
 			c.Hist["large-block-sequences"]++
-			runSeq(c, s)
+			timed("large-blocks-pebble", func() { runSeq(c, s) })
 		}
 		for i := 0; i < nShort; i++ {
-			runSeq(c, genSeq(rng.Fork(uint64(i)), ns, "memory", false, lenShort))
+			timed("random-short", func() { runSeq(c, genSeq(rng.Fork(uint64(i)), ns, "memory", false, lenShort)) })
 		}
 		for i := 0; i < nPebble; i++ {
-			runSeq(c, genSeq(rng.Fork(1000+uint64(i)), ns, "pebble", false, lenShort-2))
+			timed("random-pebble", func() { runSeq(c, genSeq(rng.Fork(1000+uint64(i)), ns, "pebble", false, lenShort-2)) })
 		}
 		for i := 0; i < nBoundary; i++ {
-			runSeq(c, genSeq(rng.Fork(2000+uint64(i)), ns, "memory", true, lenB))
+			timed("random-window-end", func() { runSeq(c, genSeq(rng.Fork(2000+uint64(i)), ns, "memory", true, lenB)) })
 		}
 	}
+	for k, v := range wall {
+		wall[k] = float64(int(v*10)) / 10
+	}
+	c.Extra["wall_s_by_family"] = wall
 	c.Extra["window"] = W
 	c.Extra["largest_store_or_revert_batch_bytes"] = maxBatchBytes
 	pprof.StopCPUProfile()
